@@ -106,4 +106,495 @@ theorem le_foldMin_iff (a : Rat) (l : List Rat) (b : Rat) :
     · rw [h]; exact ha
     · exact hl _ h
 
+/-! ### graphs -/
+
+/-- every edge joins two vertices of the graph -/
+def Graph.Valid (g : Graph) : Prop := ∀ e ∈ g.edges, e.src < g.V ∧ e.dst < g.V
+/-- the edge relation is symmetric (weights may differ) -/
+def Graph.Symm (g : Graph) : Prop := ∀ i j, g.adj i j = true → g.adj j i = true
+
+theorem adj_lt {g : Graph} {i j : Nat} (hv : g.Valid) (h : g.adj i j = true) : i < g.V ∧ j < g.V := by
+  simp only [Graph.adj, List.any_eq_true, Bool.and_eq_true, beq_iff_eq] at h
+  obtain ⟨e, he, h1, h2⟩ := h
+  have := hv e he
+  subst h1; subst h2; exact this
+
+theorem mem_closedRow {g : Graph} {i j : Nat} :
+    j ∈ closedRow g i ↔ j < g.V ∧ (j = i ∨ g.adj i j = true) := by
+  simp [closedRow, List.mem_filter]
+
+theorem dilF_le_iff (g : Graph) (f : Nat → Rat) (i : Nat) (b : Rat) :
+    dilF g f i ≤ b ↔ f i ≤ b ∧ ∀ j ∈ closedRow g i, f j ≤ b := by
+  simp [dilF, foldMax_le_iff]
+
+theorem le_eroF_iff (g : Graph) (f : Nat → Rat) (i : Nat) (b : Rat) :
+    b ≤ eroF g f i ↔ b ≤ f i ∧ ∀ j ∈ closedRow g i, b ≤ f j := by
+  simp [eroF, le_foldMin_iff]
+
+/-- on a symmetric graph dilation is lower adjoint to erosion -/
+theorem gc_dil_ero (g : Graph) (hv : g.Valid) (hs : g.Symm) : GaloisConnection (dilF g) (eroF g) := by
+  intro f h
+  simp only [Pi.le_def, dilF_le_iff, le_eroF_iff]
+  constructor
+  · intro H j
+    refine ⟨(H j).1, fun i hi => ?_⟩
+    rcases mem_closedRow.1 hi with ⟨_, rfl | hadj⟩
+    · exact (H _).1
+    · exact (H i).2 j (mem_closedRow.2 ⟨(adj_lt hv hadj).1, Or.inr (hs _ _ hadj)⟩)
+  · intro H i
+    refine ⟨(H i).1, fun j hj => ?_⟩
+    rcases mem_closedRow.1 hj with ⟨_, rfl | hadj⟩
+    · exact (H _).1
+    · exact (H j).2 i (mem_closedRow.2 ⟨(adj_lt hv hadj).1, Or.inr (hs _ _ hadj)⟩)
+
+theorem gc_iterate {α} [Preorder α] {l u : α → α} (gc : GaloisConnection l u) (n : ℕ) :
+    GaloisConnection (l^[n]) (u^[n]) := by
+  induction n with
+  | zero => exact GaloisConnection.id
+  | succ n ih =>
+    rw [Function.iterate_succ, Function.iterate_succ']
+    exact gc.compose ih
+
+/-! ### list-level operators are the specification operators -/
+
+theorem at_map_range {V : Nat} (h : Nat → Rat) {i : Nat} (hi : i < V) :
+    at_ ((List.range V).map h) i = h i := by
+  simp [at_, List.getD_eq_getElem?_getD, hi]
+
+theorem map_at_range {col : List Rat} {V : Nat} (hl : col.length = V) :
+    (List.range V).map (at_ col) = col := by
+  apply List.ext_getElem
+  · simp [hl]
+  · intro i h1 h2
+    simp [at_, List.getD_eq_getElem?_getD, h2]
+
+theorem mapM_some {α β} (f : α → Option β) (h : α → β) (l : List α)
+    (H : ∀ x ∈ l, f x = some (h x)) : l.mapM f = some (l.map h) := by
+  induction l with
+  | nil => rfl
+  | cons a t ih =>
+    rw [List.mapM_cons, H a List.mem_cons_self, ih (fun x hx => H x (List.mem_cons_of_mem _ hx))]
+    rfl
+
+theorem listMax_closedRow (g : Graph) (f : Nat → Rat) {i : Nat} (hi : i < g.V) :
+    listMax ((closedRow g i).map f) = some (dilF g f i) := by
+  have hmem : i ∈ closedRow g i := mem_closedRow.2 ⟨hi, Or.inl rfl⟩
+  unfold dilF
+  cases hrow : closedRow g i with
+  | nil => rw [hrow] at hmem; cases hmem
+  | cons a l =>
+    rw [hrow] at hmem
+    simp only [List.map_cons, listMax, Option.some.injEq]
+    apply le_antisymm
+    · rw [foldMax_le_iff]
+      exact ⟨foldMax_ge_mem _ _ _ List.mem_cons_self,
+        fun x hx => foldMax_ge_mem _ _ _ (List.mem_cons_of_mem _ hx)⟩
+    · rw [foldMax_le_iff]
+      have hfi : f i ∈ f a :: l.map f := by
+        rw [← List.map_cons]; exact List.mem_map_of_mem hmem
+      have hall : ∀ x ∈ f a :: l.map f, x ≤ foldMax (f a) (l.map f) := by
+        intro x hx
+        rcases List.mem_cons.1 hx with rfl | hx
+        · exact foldMax_ge_init _ _
+        · exact foldMax_ge_mem _ _ _ hx
+      exact ⟨hall _ hfi, hall⟩
+
+theorem listMin_closedRow (g : Graph) (f : Nat → Rat) {i : Nat} (hi : i < g.V) :
+    listMin ((closedRow g i).map f) = some (eroF g f i) := by
+  have hmem : i ∈ closedRow g i := mem_closedRow.2 ⟨hi, Or.inl rfl⟩
+  unfold eroF
+  cases hrow : closedRow g i with
+  | nil => rw [hrow] at hmem; cases hmem
+  | cons a l =>
+    rw [hrow] at hmem
+    simp only [List.map_cons, listMin, Option.some.injEq]
+    apply le_antisymm
+    · rw [le_foldMin_iff]
+      have hfi : f i ∈ f a :: l.map f := by
+        rw [← List.map_cons]; exact List.mem_map_of_mem hmem
+      have hall : ∀ x ∈ f a :: l.map f, foldMin (f a) (l.map f) ≤ x := by
+        intro x hx
+        rcases List.mem_cons.1 hx with rfl | hx
+        · exact foldMin_le_init _ _
+        · exact foldMin_le_mem _ _ _ hx
+      exact ⟨hall _ hfi, hall⟩
+    · rw [le_foldMin_iff]
+      exact ⟨foldMin_le_mem _ _ _ List.mem_cons_self,
+        fun x hx => foldMin_le_mem _ _ _ (List.mem_cons_of_mem _ hx)⟩
+
+theorem slowDilateCol_eq (g : Graph) (col : List Rat) :
+    slowDilateCol g col = some ((List.range g.V).map (dilF g (at_ col))) :=
+  mapM_some _ _ _ (fun _ hx => listMax_closedRow g _ (List.mem_range.1 hx))
+
+theorem erodeCol_eq (g : Graph) (col : List Rat) :
+    erodeCol g col = some ((List.range g.V).map (eroF g (at_ col))) :=
+  mapM_some _ _ _ (fun _ hx => listMin_closedRow g _ (List.mem_range.1 hx))
+
+theorem dilF_congr {g : Graph} {f f' : Nat → Rat} (H : ∀ j < g.V, f j = f' j) {i : Nat}
+    (hi : i < g.V) : dilF g f i = dilF g f' i := by
+  unfold dilF
+  rw [H i hi]
+  congr 1
+  exact List.map_congr_left (fun j hj => H j (mem_closedRow.1 hj).1)
+
+theorem eroF_congr {g : Graph} {f f' : Nat → Rat} (H : ∀ j < g.V, f j = f' j) {i : Nat}
+    (hi : i < g.V) : eroF g f i = eroF g f' i := by
+  unfold eroF
+  rw [H i hi]
+  congr 1
+  exact List.map_congr_left (fun j hj => H j (mem_closedRow.1 hj).1)
+
+theorem iterate_congr {V : Nat} {op : (Nat → Rat) → Nat → Rat}
+    (hop : ∀ f f' : Nat → Rat, (∀ j < V, f j = f' j) → ∀ i < V, op f i = op f' i)
+    (n : Nat) (f f' : Nat → Rat) (H : ∀ j < V, f j = f' j) : ∀ i < V, op^[n] f i = op^[n] f' i := by
+  induction n generalizing f f' with
+  | zero => exact H
+  | succ n ih =>
+    intro i hi
+    rw [Function.iterate_succ_apply, Function.iterate_succ_apply]
+    exact ih _ _ (hop f f' H) i hi
+
+theorem iterOpt_eq {V : Nat} (step : List Rat → Option (List Rat)) (op : (Nat → Rat) → Nat → Rat)
+    (hstep : ∀ col, step col = some ((List.range V).map (op (at_ col))))
+    (hop : ∀ f f' : Nat → Rat, (∀ j < V, f j = f' j) → ∀ i < V, op f i = op f' i)
+    (n : Nat) (col : List Rat) (hl : col.length = V) :
+    iterOpt step n col = some ((List.range V).map (op^[n] (at_ col))) := by
+  induction n generalizing col with
+  | zero => simp [iterOpt, map_at_range hl]
+  | succ n ih =>
+    rw [iterOpt, hstep col, Option.bind_some, ih _ (by simp)]
+    congr 1
+    apply List.map_congr_left
+    intro i hi
+    rw [Function.iterate_succ_apply]
+    exact iterate_congr hop n _ _ (fun j hj => at_map_range _ hj) i (List.mem_range.1 hi)
+
+theorem slowDilate_eq (g : Graph) (n : Nat) (col : List Rat) (hl : col.length = g.V) :
+    slowDilate g n col = some ((List.range g.V).map ((dilF g)^[n] (at_ col))) :=
+  iterOpt_eq _ _ (slowDilateCol_eq g) (fun _ _ H _ hi => dilF_congr H hi) n col hl
+
+theorem erode_eq (g : Graph) (n : Nat) (col : List Rat) (hl : col.length = g.V) :
+    erode g n col = some ((List.range g.V).map ((eroF g)^[n] (at_ col))) :=
+  iterOpt_eq _ _ (erodeCol_eq g) (fun _ _ H _ hi => eroF_congr H hi) n col hl
+
+/-! ### forests -/
+
+/-- characterisation of the inner loop of `Forest.check` -/
+theorem walk_true_iff (V : Nat) (p : Nat → Nat) (v : Nat) (fuel w q : Nat) (hq : q ≤ V) :
+    walk V p v fuel w q = true ↔
+      ∃ k < fuel, p (p^[k] w) = p^[k] w ∧
+        (∀ j < k, p (p^[j] w) ≠ p^[j] w ∧ p^[j + 1] w ≠ v) ∧ q + k ≤ V := by
+  induction fuel generalizing w q with
+  | zero => simp [walk]
+  | succ fuel ih =>
+    rw [walk]
+    by_cases h1 : p w = w
+    · simp only [h1, if_true, true_iff]
+      exact ⟨0, Nat.succ_pos _, by simpa using h1, by simp, by simpa using hq⟩
+    · simp only [h1, if_false]
+      by_cases h2 : p w = v
+      · simp only [h2, if_true, Bool.false_eq_true, false_iff]
+        rintro ⟨k, _, hk, hj, _⟩
+        cases k with
+        | zero => exact h1 (by simpa using hk)
+        | succ k => exact (hj 0 (Nat.succ_pos _)).2 (by simpa using h2)
+      · simp only [h2, if_false]
+        by_cases h3 : q + 1 > V
+        · simp only [h3, if_true, Bool.false_eq_true, false_iff]
+          rintro ⟨k, _, hk, _, hle⟩
+          cases k with
+          | zero => exact h1 (by simpa using hk)
+          | succ k => omega
+        · simp only [h3, if_false]
+          rw [ih (p w) (q + 1) (by omega)]
+          constructor
+          · rintro ⟨k, hk, hroot, hj, hle⟩
+            refine ⟨k + 1, by omega, by simpa [Function.iterate_succ_apply] using hroot, ?_, by omega⟩
+            intro j hjk
+            cases j with
+            | zero => exact ⟨by simpa using h1, by simpa using h2⟩
+            | succ j =>
+              have := hj j (by omega)
+              simpa [Function.iterate_succ_apply] using this
+          · rintro ⟨k, hk, hroot, hj, hle⟩
+            cases k with
+            | zero => exact absurd (by simpa using hroot) h1
+            | succ k =>
+              refine ⟨k, by omega, by simpa [Function.iterate_succ_apply] using hroot, ?_, by omega⟩
+              intro j hjk
+              have := hj (j + 1) (by omega)
+              simpa [Function.iterate_succ_apply] using this
+
+/-- a point that returns to itself after `m` steps: iterates only depend on the residue -/
+theorem iterate_mod_of_periodic {p : Nat → Nat} {v m : Nat} (hm : p^[m] v = v) (n : Nat) :
+    p^[n] v = p^[n % m] v := by
+  conv_lhs => rw [← Nat.mod_add_div n m]
+  rw [Function.iterate_add_apply, Function.iterate_mul, Function.iterate_fixed hm]
+
+/-! ### the compiled fast path reads the same neighbourhoods -/
+
+theorem countP_lt_succ (l : List Edge) (i : Nat) :
+    l.countP (fun e => decide (e.src < i + 1)) =
+      l.countP (fun e => decide (e.src < i)) + l.countP (fun e => e.src == i) := by
+  induction l with
+  | nil => rfl
+  | cons e t ih =>
+    simp only [List.countP_cons, ih]
+    rcases Nat.lt_trichotomy e.src i with h | h | h
+    · have a : e.src < i + 1 := by omega
+      have b : ¬ e.src = i := by omega
+      (simp [h, a, b]) <;> omega
+    · have a : e.src < i + 1 := by omega
+      have b : ¬ e.src < i := by omega
+      (simp [h, a, b]) <;> omega
+    · have a : ¬ e.src < i + 1 := by omega
+      have b : ¬ e.src < i := by omega
+      have c : ¬ e.src = i := by omega
+      (simp [a, b, c]) <;> omega
+
+theorem idxAt_eq (g : Graph) (i : Nat) :
+    idxAt g i = g.edges.countP (fun e => decide (e.src < i)) := by
+  induction i with
+  | zero => simp [idxAt]
+  | succ i ih =>
+    rw [idxAt, ih, countP_lt_succ, degree]
+    simp [List.countP_eq_length_filter]
+
+/-- slice of a list sorted by source: positions `[#(src<i), #(src<i) + #(src=i))` hold exactly
+    the entries with source `i` -/
+theorem slice_sorted (s : List Edge) (i : Nat) (hs : s.Pairwise (fun a b => a.src ≤ b.src)) :
+    (s.drop (s.countP (fun e => decide (e.src < i)))).take (s.countP (fun e => e.src == i)) =
+      s.filter (fun e => e.src == i) := by
+  induction s with
+  | nil => rfl
+  | cons e t ih =>
+    obtain ⟨he, ht⟩ := List.pairwise_cons.1 hs
+    have ih := ih ht
+    rcases Nat.lt_trichotomy e.src i with h | h | h
+    · have h2 : ¬ e.src = i := by omega
+      simp [List.countP_cons, List.filter_cons, h, h2, ih]
+    · have hz : t.countP (fun e => decide (e.src < i)) = 0 := by
+        rw [List.countP_eq_zero]; intro b hb; have := he b hb; simp; omega
+      rw [hz] at ih
+      simp only [List.drop_zero] at ih
+      simp [List.countP_cons, List.filter_cons, h, hz, List.take_succ_cons, ih]
+    · have hz : t.countP (fun e => decide (e.src < i)) = 0 := by
+        rw [List.countP_eq_zero]; intro b hb; have := he b hb; simp; omega
+      have hz2 : t.countP (fun e => e.src == i) = 0 := by
+        rw [List.countP_eq_zero]; intro b hb; have := he b hb; simp; omega
+      have h1 : ¬ e.src < i := by omega
+      have h2 : ¬ e.src = i := by omega
+      have hf : t.filter (fun e => e.src == i) = [] := by
+        rw [List.filter_eq_nil_iff]; intro b hb; have := he b hb; simp; omega
+      simp [List.countP_cons, List.filter_cons, h1, h2, hz, hz2, hf]
+
+theorem sortedEdges_perm (g : Graph) : (sortedEdges g).Perm g.edges := List.mergeSort_perm _ _
+
+theorem sortedEdges_pairwise (g : Graph) (hv : g.Valid) :
+    (sortedEdges g).Pairwise (fun a b => a.src ≤ b.src) := by
+  have hp : (sortedEdges g).Pairwise (fun a b => decide (ekey g.V a ≤ ekey g.V b) = true) :=
+    List.pairwise_mergeSort (le := fun a b => decide (ekey g.V a ≤ ekey g.V b))
+      (by intro a b c; simp only [decide_eq_true_eq]; omega)
+      (by intro a b; simp only [Bool.or_eq_true, decide_eq_true_eq]; omega) g.edges
+  refine hp.imp_of_mem ?_
+  intro a b _ hb hab
+  have hbv := (hv b ((sortedEdges_perm g).mem_iff.1 hb)).2
+  have hab := of_decide_eq_true hab
+  simp only [ekey] at hab
+  by_contra hlt
+  have h1 : (b.src + 1) * g.V ≤ a.src * g.V := Nat.mul_le_mul_right _ (by omega)
+  rw [Nat.add_mul, Nat.one_mul] at h1
+  omega
+
+theorem fastRow_eq (g : Graph) (hv : g.Valid) (i : Nat) :
+    fastRow g i = ((sortedEdges g).filter (fun e => e.src == i)).map (·.dst) := by
+  have hperm := sortedEdges_perm g
+  unfold fastRow neighb
+  rw [idxAt, idxAt_eq, degree, ← List.countP_eq_length_filter, Nat.add_sub_cancel_left,
+    ← hperm.countP_eq, ← hperm.countP_eq, ← List.map_drop, ← List.map_take,
+    slice_sorted _ i (sortedEdges_pairwise g hv)]
+
+theorem mem_fastRow (g : Graph) (hv : g.Valid) (i j : Nat) : j ∈ fastRow g i ↔ g.adj i j = true := by
+  rw [fastRow_eq g hv]
+  simp only [List.mem_map, List.mem_filter, (sortedEdges_perm g).mem_iff, Graph.adj, List.any_eq_true,
+    Bool.and_eq_true, beq_iff_eq]
+  constructor
+  · rintro ⟨e, ⟨he, h1⟩, h2⟩; exact ⟨e, he, h1, h2⟩
+  · rintro ⟨e, he, h1, h2⟩; exact ⟨e, ⟨he, h1⟩, h2⟩
+
+/-- one pass of the compiled kernel is the closed-neighbourhood maximum -/
+theorem fastDilateCol_eq (g : Graph) (hv : g.Valid) (col : List Rat) :
+    fastDilateCol g col = (List.range g.V).map (dilF g (at_ col)) := by
+  unfold fastDilateCol
+  apply List.map_congr_left
+  intro i hi
+  have hi := List.mem_range.1 hi
+  unfold dilF
+  apply le_antisymm
+  · rw [foldMax_le_iff]
+    refine ⟨foldMax_ge_init _ _, ?_⟩
+    intro x hx
+    obtain ⟨j, hj, rfl⟩ := List.mem_map.1 hx
+    have hadj := (mem_fastRow g hv i j).1 hj
+    exact foldMax_ge_mem _ _ _
+      (List.mem_map_of_mem (mem_closedRow.2 ⟨(adj_lt hv hadj).2, Or.inr hadj⟩))
+  · rw [foldMax_le_iff]
+    refine ⟨foldMax_ge_init _ _, ?_⟩
+    intro x hx
+    obtain ⟨j, hj, rfl⟩ := List.mem_map.1 hx
+    rcases (mem_closedRow.1 hj).2 with rfl | hadj
+    · exact foldMax_ge_init _ _
+    · exact foldMax_ge_mem _ _ _ (List.mem_map_of_mem ((mem_fastRow g hv i j).2 hadj))
+
+theorem iterate_list_eq {V : Nat} (step : List Rat → List Rat) (op : (Nat → Rat) → Nat → Rat)
+    (hstep : ∀ col, step col = (List.range V).map (op (at_ col)))
+    (hop : ∀ f f' : Nat → Rat, (∀ j < V, f j = f' j) → ∀ i < V, op f i = op f' i)
+    (n : Nat) (col : List Rat) (hl : col.length = V) :
+    step^[n] col = (List.range V).map (op^[n] (at_ col)) := by
+  induction n generalizing col with
+  | zero => simp [map_at_range hl]
+  | succ n ih =>
+    rw [Function.iterate_succ_apply, hstep col, ih _ (by simp)]
+    apply List.map_congr_left
+    intro i hi
+    rw [Function.iterate_succ_apply]
+    exact iterate_congr hop n _ _ (fun j hj => at_map_range _ hj) i (List.mem_range.1 hi)
+
+/-- with no edge at all the closed-neighbourhood maximum is the identity (the fast path
+    then skips the kernel) -/
+theorem dilF_no_edges (g : Graph) (he : g.edges = []) (n : Nat) (f : Nat → Rat) :
+    ∀ i < g.V, (dilF g)^[n] f i = f i := by
+  have h1 : ∀ (f : Nat → Rat), ∀ i < g.V, dilF g f i = f i := by
+    intro f i hi
+    apply le_antisymm
+    · rw [dilF_le_iff]
+      refine ⟨le_refl _, fun j hj => ?_⟩
+      rcases (mem_closedRow.1 hj).2 with rfl | hadj
+      · exact le_refl _
+      · simp [Graph.adj, he] at hadj
+    · exact foldMax_ge_init _ _
+  induction n generalizing f with
+  | zero => intro i _; rfl
+  | succ n ih =>
+    intro i hi
+    have hc := iterate_congr (V := g.V) (op := dilF g) (fun _ _ H _ hi => dilF_congr H hi) n
+      (dilF g f) f (h1 f) i hi
+    rw [Function.iterate_succ_apply, hc]
+    exact ih f i hi
+
+theorem fastDilate_eq (g : Graph) (hv : g.Valid) (n : Nat) (col : List Rat) (hl : col.length = g.V) :
+    fastDilate g n col = (List.range g.V).map ((dilF g)^[n] (at_ col)) := by
+  unfold fastDilate
+  split
+  · rename_i he
+    have he : g.edges = [] := by simpa using he
+    rw [← map_at_range hl]
+    apply List.map_congr_left
+    intro i hi
+    rw [map_at_range hl]
+    exact (dilF_no_edges g he n (at_ col) i (List.mem_range.1 hi)).symm
+  · rw [iter_eq_iterate]
+    exact iterate_list_eq _ _ (fastDilateCol_eq g hv) (fun _ _ H _ hi => dilF_congr H hi) n col hl
+
+/-! ### depth from leaves -/
+
+theorem sweepStep_ge (p : Nat → Nat) (d : Nat → Int) (i j : Nat) : d j ≤ sweepStep p d i j := by
+  unfold sweepStep upd
+  split
+  · show d j ≤ if j = p i then max (d i + 1) (d (p i)) else d j
+    split
+    · rename_i h; subst h; exact le_max_right _ _
+    · exact le_refl _
+  · exact le_refl _
+
+theorem foldl_sweepStep_ge (p : Nat → Nat) (l : List Nat) (d : Nat → Int) (j : Nat) :
+    d j ≤ (l.foldl (sweepStep p) d) j := by
+  induction l generalizing d with
+  | nil => exact le_refl _
+  | cons a t ih => exact le_trans (sweepStep_ge p d a j) (ih _)
+
+/-- a sweep that changes nothing consists of steps that change nothing -/
+theorem foldl_sweepStep_fixed (p : Nat → Nat) (l : List Nat) (d : Nat → Int)
+    (h : l.foldl (sweepStep p) d = d) : ∀ i ∈ l, sweepStep p d i = d := by
+  induction l with
+  | nil => intro i hi; cases hi
+  | cons a t ih =>
+    have hstep : sweepStep p d a = d := by
+      funext j
+      apply le_antisymm
+      · have := foldl_sweepStep_ge p t (sweepStep p d a) j
+        rw [List.foldl_cons] at h
+        rw [h] at this; exact this
+      · exact sweepStep_ge p d a j
+    intro i hi
+    rcases List.mem_cons.1 hi with rfl | hi
+    · exact hstep
+    · rw [List.foldl_cons, hstep] at h
+      exact ih h i hi
+
+/-- the sweep only writes at parents, hence inside `0..V-1` when parents are in range -/
+theorem foldl_sweepStep_outside (V : Nat) (p : Nat → Nat) (hr : ∀ v < V, p v < V) (l : List Nat)
+    (hl : ∀ i ∈ l, i < V) (d : Nat → Int) (j : Nat) (hj : V ≤ j) :
+    (l.foldl (sweepStep p) d) j = d j := by
+  induction l generalizing d with
+  | nil => rfl
+  | cons a t ih =>
+    rw [List.foldl_cons, ih (fun i hi => hl i (List.mem_cons_of_mem _ hi))]
+    unfold sweepStep upd
+    have := hr a (hl a List.mem_cons_self)
+    split
+    · show (if j = p a then max (d a + 1) (d (p a)) else d j) = d j
+      split
+      · omega
+      · rfl
+    · rfl
+
+/-! ### reordering -/
+
+theorem inverseOrder_prefix (order : Nat → Nat) (n : Nat)
+    (hinj : ∀ i < n, ∀ j < n, order i = order j → i = j) :
+    ∀ i < n, (List.range n).foldl (fun io i => upd io (order i) i) id (order i) = i := by
+  induction n with
+  | zero => intro i hi; omega
+  | succ n ih =>
+    intro i hi
+    rw [List.range_succ, List.foldl_append]
+    simp only [List.foldl_cons, List.foldl_nil, upd]
+    by_cases h : order i = order n
+    · rw [if_pos h]; exact (hinj i hi n (by omega) h).symm
+    · rw [if_neg h]
+      have hin : i < n := by
+        rcases Nat.lt_succ_iff_lt_or_eq.1 hi with h' | h'
+        · exact h'
+        · subst h'; exact absurd rfl h
+      exact ih (fun a ha b hb => hinj a (by omega) b (by omega)) i hin
+
+/-! ### highest neighbour -/
+
+theorem argmax_fold_spec (f : Nat → Rat) (r : List Nat) (j : Nat) :
+    let b := r.foldl (fun b x => if f x > f b then x else b) j
+    b ∈ j :: r ∧ f j ≤ f b ∧ ∀ x ∈ r, f x ≤ f b := by
+  induction r generalizing j with
+  | nil => simp
+  | cons a t ih =>
+    simp only [List.foldl_cons]
+    by_cases h : f a > f j
+    · simp only [h, if_true]
+      obtain ⟨h1, h2, h3⟩ := ih a
+      refine ⟨List.mem_cons_of_mem _ h1, le_trans (le_of_lt h) h2, ?_⟩
+      intro x hx
+      rcases List.mem_cons.1 hx with rfl | hx
+      · exact h2
+      · exact h3 x hx
+    · simp only [h, if_false]
+      obtain ⟨h1, h2, h3⟩ := ih j
+      refine ⟨?_, h2, ?_⟩
+      · rcases List.mem_cons.1 h1 with h1 | h1
+        · rw [h1]; exact List.mem_cons_self
+        · exact List.mem_cons_of_mem _ (List.mem_cons_of_mem _ h1)
+      · intro x hx
+        rcases List.mem_cons.1 hx with rfl | hx
+        · exact le_trans (not_lt.1 h) h2
+        · exact h3 x hx
+
 end NipyVerif.C12
